@@ -756,13 +756,16 @@ class KernFeatureWriter(BaseFeatureWriter):
             for script in scripts:
                 lookups.setdefault(script, {})[lookupName] = lookup
 
-        # Clean out empty lookups.
+        # Clean out empty lookups (the lookup flag and the mark filtering class it
+        # may refer to don't count as content).
         for script, scriptLookups in list(lookups.items()):
             for lookup_name, lookup in list(scriptLookups.items()):
                 if not any(
                     stmt
                     for stmt in lookup.statements
-                    if not isinstance(stmt, ast.LookupFlagStatement)
+                    if not isinstance(
+                        stmt, (ast.LookupFlagStatement, ast.GlyphClassDefinition)
+                    )
                 ):
                     del scriptLookups[lookup_name]
             if not scriptLookups:
